@@ -52,6 +52,14 @@ class FuncInfo:
     def where(self) -> str:
         return f"{self.unit.rel}:{self.node.lineno}"
 
+    def call_params(self) -> List[str]:
+        """the parameter names as a caller fills them positionally: without `self` / `cls` for methods, all of them for
+        static methods and plain functions"""
+        a = self.node.args
+        ps = [p.arg for p in a.posonlyargs + a.args]
+        static = any(d.split(".")[-1] == "staticmethod" for d in self.decorator_names())
+        return ps if (self.cls is None or static) else ps[1:]
+
     def decorator_names(self) -> List[str]:
         out = []
         for d in getattr(self.node, "decorator_list", []):
